@@ -263,6 +263,130 @@ def _subst(node, table):
     return n
 
 
+def _static_truth(test):
+    """Truth value of a condition that is decided by the SYNTACTIC shape of its
+    operands, else None: `hasattr(<tuple/list display>, '__len__')` is True,
+    `hasattr(<number>, '__len__')` is False; not / and / or over those."""
+    if isinstance(test, ast.UnaryOp) and isinstance(test.op, ast.Not):
+        t = _static_truth(test.operand)
+        return None if t is None else not t
+    if isinstance(test, ast.BoolOp):
+        ts = [_static_truth(v) for v in test.values]
+        if isinstance(test.op, ast.And):
+            return False if any(t is False for t in ts) else (True if all(t is True for t in ts) else None)
+        return True if any(t is True for t in ts) else (False if all(t is False for t in ts) else None)
+    if isinstance(test, ast.Call) and isinstance(test.func, ast.Name) and test.func.id == 'hasattr' \
+            and len(test.args) == 2 and not test.keywords and const_value(test.args[1]) == '__len__':
+        o = test.args[0]
+        if isinstance(o, (ast.Tuple, ast.List)):
+            return True
+        if isinstance(o, ast.Constant) and isinstance(o.value, (int, float)) and not isinstance(o.value, bool):
+            return False
+    return None
+
+
+def _specialise_call(mod, fi, call, depth=2):
+    """Value of a call `h(args)` of a small module-level helper `h` of the same
+    module for THESE arguments, as an expression over the caller's own nodes,
+    or None.  Purely symbolic: the helper's body must be a decision tree of
+    `if` / `return <expr>` (guard-clause form included) without any other
+    statement; its parameters are replaced by the argument expressions (only
+    side-effect free arguments: names, constants, displays, subscripts and
+    attributes of those); a branch condition must be decided by the shape of
+    the arguments (_static_truth), so that exactly one `return` remains;
+    `(a, b)[<const>]` is folded to the selected element.  The argument nodes of
+    the caller are reused (not copied), so def-use queries on them still work."""
+    if not isinstance(call, ast.Call) or not isinstance(call.func, ast.Name) or depth <= 0:
+        return None
+    h = mod.functions.get(call.func.id)
+    if h is None or not isinstance(h, ast.FunctionDef) or h.decorator_list or h is fi.fn:
+        return None
+    if h.args.vararg or h.args.kwarg or h.args.kwonlyargs or h.args.defaults or getattr(h.args, 'posonlyargs', None):
+        return None
+    b = _bind(call, h, mod)
+    ps = params(h)
+    if b is None or set(b) != set(ps):
+        return None
+
+    def simple(e):
+        if isinstance(e, (ast.Name, ast.Constant)):
+            return True
+        if isinstance(e, (ast.Tuple, ast.List)):
+            return all(simple(x) for x in e.elts)
+        if isinstance(e, ast.Subscript):
+            return simple(e.value) and simple(e.slice)
+        if isinstance(e, ast.Attribute):
+            return simple(e.value)
+        return False
+    if not all(simple(v) for v in b.values()):
+        return None
+
+    def subst(e):
+        if isinstance(e, ast.Name):
+            if e.id in b:
+                return b[e.id] if isinstance(e.ctx, ast.Load) else None
+            if e.id in fi.rd.locals or e.id in ps:
+                return None                  # a free name of the helper that is a local of the caller
+            return ast.copy_location(ast.Name(id=e.id, ctx=e.ctx), e)
+        if isinstance(e, (ast.Lambda, ast.ListComp, ast.SetComp, ast.DictComp, ast.GeneratorExp, ast.NamedExpr,
+                          ast.Yield, ast.YieldFrom, ast.Await, ast.Starred)):
+            return None
+        if not isinstance(e, ast.AST) or isinstance(e, (ast.expr_context, ast.operator, ast.unaryop, ast.boolop, ast.cmpop)):
+            return e
+        new = type(e)()
+        for f in e._fields:
+            val = getattr(e, f, None)
+            if isinstance(val, list):
+                xs = [subst(x) for x in val]
+                if any(x is None for x in xs):
+                    return None
+                setattr(new, f, xs)
+            elif isinstance(val, ast.AST):
+                x = subst(val)
+                if x is None:
+                    return None
+                setattr(new, f, x)
+            else:
+                setattr(new, f, val)
+        ast.copy_location(new, e)
+        if isinstance(new, ast.Subscript) and isinstance(new.value, (ast.Tuple, ast.List)):
+            k = const_value(new.slice)
+            if isinstance(k, int) and not isinstance(k, bool) and -len(new.value.elts) <= k < len(new.value.elts) \
+                    and not any(isinstance(x, ast.Starred) for x in new.value.elts):
+                return new.value.elts[k]
+        return new
+
+    def tree(stmts):
+        """The returned expression of the statement list under the static truth of the conditions:
+        an expr, 'fall' (falls through without returning) or None (not decidable)."""
+        for s in stmts:
+            if isinstance(s, ast.Expr) and isinstance(s.value, ast.Constant):
+                continue                     # docstring
+            if isinstance(s, ast.Pass):
+                continue
+            if isinstance(s, ast.Return):
+                return subst(s.value) if s.value is not None else None
+            if isinstance(s, ast.If):
+                t = subst(s.test)
+                tv = _static_truth(t) if t is not None else None
+                if tv is None:
+                    return None
+                r = tree(s.body if tv else s.orelse)
+                if r != 'fall':
+                    return r
+                continue
+            return None
+        return 'fall'
+    r = tree(h.body)
+    if r is None or r == 'fall':
+        return None
+    if isinstance(r, ast.Call):
+        deeper = _specialise_call(mod, fi, r, depth - 1)
+        if deeper is not None:
+            return deeper
+    return r
+
+
 # ---------------------------------------------------------------------------
 # roles of the PAM update
 
@@ -336,14 +460,37 @@ def d1_accept(ck, R):
         return
     mod, fn, fi = R.mod, R.fn, R.fi
 
-    def cost_of(e):
+    def carried_cost(e):
+        """A cost kept in a variable ACROSS trips (several reaching definitions, or one whose operands are
+        rebound before the use): {'f', 'fn': [Name nodes], 'carried': [(definition, cost_of its value)], 'name'}
+        when every reaching definition assigns a cost computed by the same callable."""
+        try:
+            defs = fi.defs_of_use(e)
+        except Exception:
+            return None
+        out = []
+        for d in defs:
+            if d in ('PARAM', 'UNBOUND') or not isinstance(d, (ast.Assign, ast.AnnAssign)):
+                return None
+            v = fi.def_value(d, e.id)
+            info = cost_of(v, carried=False) if v is not None else None
+            if info is None:
+                return None
+            out.append((d, info))
+        if not out or len({i['f'] for _, i in out}) != 1:
+            return None
+        out.sort(key=lambda di: getattr(di[0], 'lineno', 0))
+        return {'f': out[0][1]['f'], 'fn': None, 'fns': [i['fn'] for _, i in out], 'arg': None, 'st': None,
+                'carried': out, 'name': e}
+
+    def cost_of(e, carried=True):
         """{'f': text of the callable, 'fn': its Name node or None, 'arg': the argument expression,
         'st': the statement evaluating it} for `f(x)`, `mod.f(x)` or `x.m()`."""
         v, st = e, fi.stmt(e)
         if isinstance(e, ast.Name):
             v = _stable_value(fi, e)
             if v is None:
-                return None
+                return carried_cost(e) if carried else None
             st = next(iter(fi.defs_of_use(e)))
         if not isinstance(v, ast.Call) or v.keywords:
             return None
@@ -401,9 +548,15 @@ def d1_accept(ck, R):
         return
     small, strict, big = less
     ps_, pb_ = (pl, pr) if small is cmp_.lhs else (pr, pl)
+    if 'carried' in ps_:
+        ck.missing(rule, 'accept test `%s`: the cost on the small side (`%s`) is carried across trips of the loop, '
+                   'not computed from a candidate of this trip' % (cmp_, u(small)))
+        return
+    base = pb_ if 'carried' in pb_ else None
     f1, a1, st1 = ps_['f'], ps_['arg'], ps_['st']
     f2, a2, st2 = pb_['f'], pb_['arg'], pb_['st']
-    x1, x2 = fi.xu(a1), fi.xu(a2)
+    x1 = fi.xu(a1)
+    x2 = fi.xu(a2) if base is None else ' | '.join(fi.xu(i['arg']) for _, i in base['carried'])
     desc = '%s  [%s = %s(%s), %s = %s(%s)]' % (cmp_, u(small), f1, x1, u(big), f2, x2)
     why = ('the branch that commits the candidate must be taken only when cost(<candidate distances>) < '
            'cost(<current distances>) with both costs from the same callable; found small side %s(%s), big side '
@@ -412,7 +565,8 @@ def d1_accept(ck, R):
         ck.bad(rule, mod, a.owner, PAM, desc, why)
         return
     # the callable: a parameter that is never rebound, or a module-level function
-    fdefs = (fi.defs_of_use(ps_['fn']) | fi.defs_of_use(pb_['fn'])) if ps_['fn'] is not None and pb_['fn'] is not None else None
+    fns = [ps_['fn']] + (pb_['fns'] if base is not None else [pb_['fn']])
+    fdefs = set().union(*[fi.defs_of_use(n) for n in fns]) if all(n is not None for n in fns) else None
     if fdefs == {'PARAM'}:
         R.cost = ('param', f1)
     elif fdefs is not None and not fdefs and f1 in mod.functions:
@@ -429,6 +583,14 @@ def d1_accept(ck, R):
         ds = fi.rd.defs_at(st, n.id)
         return bool(ds) and all(d not in ('PARAM', 'UNBOUND') and _inside(mod, d, R.loop) for d in ds)
 
+    if base is not None:
+        # the cost of the current distances is kept in a variable across trips: it must equal cost(<current
+        # distances>) whenever the comparison is evaluated
+        if x1 != R.D and loop_local(a1, st1):
+            R.cand_dist = _orig_name(fi, a1).id
+        if not _baseline(ck, R, rule, a, base, str(cmp_)):
+            return
+        x2 = R.D
     if x2 == R.D and x1 != R.D:
         ll = loop_local(a1, st1)
         if ll is None:
@@ -459,6 +621,98 @@ def d1_accept(ck, R):
     ck.check(not late, rule + '.complete', mod, late[0] if late else st1, PAM, u(late[0] if late else st1)[:160],
              'candidate cost is computed after the last store into the candidate distances',
              'a store into the candidate distances `%s` follows the cost computation within the same trip' % cand)
+
+
+def _control_equivalent(fi, x, y):
+    """x and y execute together: one dominates the other and is post-dominated by it."""
+    c = fi.cfg
+    return (c.dominates(x, y) and c.postdominates(y, x)) or (c.dominates(y, x) and c.postdominates(x, y))
+
+
+def _baseline(ck, R, rule, acc, base, desc):
+    """The big side of the accept test is a variable `oc` that carries a cost across trips of the per-centre
+    loop (the cost of the current distances is not recomputed for every proposal).  Decide the invariant
+    oc == cost(<current distances D>) at the comparison:
+      * a definition `oc = cost(D)` is valid where it stands;
+      * a definition `oc = cost(N)` with N a candidate array is valid iff it executes together with the commit
+        `D = N` of the same N (control equivalent, nothing in between);  if it can execute without the accept
+        condition (not dominated by it) the baseline becomes the cost of a REJECTED candidate -> violation;
+      * a write to D from which the comparison is reachable without passing a definition of oc leaves a
+        stale baseline -> violation (unless it is the commit paired with a refresh as above).
+    Returns True when the invariant is established; otherwise a bad/missing has been reported."""
+    mod, fn, fi, loop = R.mod, R.fn, R.fi, R.loop
+    oc = base['name']
+    use = fi.stmt(oc)
+    D = R.D
+    ocdefs = [d for d, _ in base['carried']]
+    dwrites = []
+    for w in list(assigns_to(fn, D)) + list(fi._mutated_in_place(D)):
+        if w not in dwrites:
+            dwrites.append(w)
+    paired = {}
+    for d, info in base['carried']:
+        st = info['st']
+        x = fi.xu(info['arg'])
+        if x == D:
+            if st is not d and (fi.rd.defs_at(st, D) != fi.rd.defs_at(d, D) or any(
+                    fi.cfg.reachable(st, w, avoiding=[d]) and fi.cfg.reachable(w, d, avoiding=[st]) for w in dwrites)):
+                ck.missing(rule, 'baseline `%s`: `%s` may change between `%s` and this assignment' % (u(d)[:80], D, u(st)[:60]))
+                return False
+            continue
+        n = _orig_name(fi, info['arg'])
+        if not isinstance(n, ast.Name):
+            ck.missing(rule, 'baseline `%s`: cost of `%s`, which is neither the current distances nor a named candidate' % (u(d)[:80], x))
+            return False
+        cands = fi.rd.defs_at(st, n.id)
+        local = bool(cands) and all(c not in ('PARAM', 'UNBOUND') and _inside(mod, c, loop) for c in cands)
+        pair = None
+        for w in dwrites:
+            if not isinstance(w, ast.Assign) or w in paired:
+                continue
+            wv = fi.def_value(w, D)
+            wn = _orig_name(fi, wv) if wv is not None else None
+            if not (isinstance(wn, ast.Name) and wn.id == n.id and fi.rd.defs_at(w, n.id) == cands
+                    and _control_equivalent(fi, d, w)):
+                continue
+            first, second = (d, w) if fi.cfg.dominates(d, w) else (w, d)
+            between = [m for m in fi._mutated_in_place(n.id) + fi._mutated_in_place(D)
+                       if m is not first and m is not second and fi.cfg.reachable(first, m, avoiding=[loop, second])
+                       and fi.cfg.reachable(m, second, avoiding=[loop, first])]
+            if not between and _no_redef_between(fi, D, first, second, loop) and _no_redef_between(fi, oc.id, first, second, loop):
+                pair = w
+                break
+        if pair is not None:
+            paired[pair] = d
+            continue
+        # the refresh certainly executes after a REJECTION, in the same trip, and then reaches the next comparison
+        rej = [x for x in fi.cfg.nodes if isinstance(x, Assume) and x.owner is acc.owner and x.polarity != acc.polarity]
+        after_reject = (len(rej) == 1 and fi.cfg.reachable(rej[0], d, avoiding=[loop])
+                        and not fi.cfg.reachable(rej[0], loop, avoiding=[d])
+                        and not any(fi.cfg.reachable(rej[0], w, avoiding=[loop, d]) for w in dwrites)
+                        and fi.cfg.reachable(d, use, avoiding=[x for x in ocdefs if x is not d]))
+        if _inside(mod, d, loop) and local and not fi.cfg.dominates(acc, d) and after_reject:
+            ck.bad(rule, mod, d, PAM, u(d)[:160],
+                   'the cost `%s` on the big side of the accept test `%s` is kept across trips of the per-centre loop, '
+                   'and this refresh sets it to the cost of the candidate `%s` WITHOUT the accept condition (it is not '
+                   'controlled by `%s`): after a rejected proposal the baseline is the cost of the rejected candidate, '
+                   'not cost(%s) of the current clustering, so a later proposal that is worse than the current '
+                   'clustering can be accepted and a sweep can raise the cost' % (
+                       oc.id, desc[:80], n.id, u(acc.test)[:60], D))
+            return False
+        ck.missing(rule, 'baseline `%s`: not recognised as a refresh that executes together with the commit `%s = %s`' % (u(d)[:80], D, n.id))
+        return False
+    for w in dwrites:
+        if w in paired:
+            continue
+        if fi.cfg.reachable(w, use, avoiding=ocdefs):
+            ck.bad(rule, mod, w, PAM, u(w)[:160],
+                   'the cost `%s` on the big side of the accept test `%s` is kept across trips of the per-centre loop '
+                   'but is not refreshed after this write to the current distances `%s`: the next proposal is compared '
+                   'with the cost of distances that are no longer current' % (oc.id, desc[:80], D))
+            return False
+    ck.ok(rule, mod, use, 'baseline %s' % '; '.join(u(d)[:60] for d in ocdefs),
+          'the carried cost equals cost(%s) at every evaluation of the accept test' % D)
+    return True
 
 
 def d1_cost(ck, R):
@@ -983,7 +1237,10 @@ def _pairing(ck, R, fnp):
         if val is None:
             ck.missing(rule, 'definition `%s` of the proposed coordinate' % u(d)[:100])
             continue
-        ixs = [n for n in walk_expr(val) if isinstance(n, ast.Name) and n.id == PI.id]
+        if isinstance(val, ast.Call) and _last(call_name(val)) != 'distribute_frame':
+            sp = _specialise_call(mod, fi, val)
+            val = sp if sp is not None else val
+        ixs =[n for n in walk_expr(val) if isinstance(n, ast.Name) and n.id == PI.id]
         tied = bool(ixs) and all(fi.defs_of_use(n) <= pi_defs for n in ixs) and _no_redef_between(fi, PI.id, d, commit, loop)
         if isinstance(val, ast.Call) and _last(call_name(val)) == 'distribute_frame':
             da = _distribute_args(ck, val)
@@ -1059,6 +1316,10 @@ def _initial_coords(ck, R):
                 if isinstance(e, ast.Name):
                     sv = _stable_value(fi, e)
                     e = sv if sv is not None else e
+                if isinstance(e, ast.Call) and _last(call_name(e)) != 'distribute_frame':
+                    # a small helper of this module called with a (rank, frame) display: its value for these arguments
+                    sp = _specialise_call(mod, fi, e)
+                    e = sp if sp is not None else e
                 if not (isinstance(l, ast.For) and isinstance(e, ast.Call) and _last(call_name(e)) == 'distribute_frame'):
                     ck.missing(rule, 'initial MPI centre coordinates `%s`' % u(c)[:100])
                     continue
